@@ -25,28 +25,36 @@ def check(tier, seed, t0):
         runs.append(("d3", ["a", "b"], 3, "full"))
         runs.append(("data3", ["a", "b"], 3, "data"))
         runs.append(("fn5", ["a", "b"], 5, "fn"))
-    cases, states, trans, wall = [], 0, 0, 0.0
+    # one run at a time, the behaviours streamed from TLC's output to the harness (hundreds of thousands in the thorough tier:
+    # nothing but counters and two samples is kept in memory)
+    states, trans, wall, n_cases, evals, nontrivial, sample_steps = 0, 0, 0.0, 0, 0, 0, None
     for tag, vs, depth, alpha in runs:
-        r = vlib.run_tlc("c03_mc_" + tag, "MC_C03", cfg(vs, depth, alpha), workers=8, timeout=3000, xmx="12g")
+        cpath = os.path.join(vlib.BUILD, "c03_cases_%s.ndjson" % tag)
+        opath = os.path.join(vlib.BUILD, "c03_out_%s.ndjson" % tag)
+        r = vlib.run_tlc("c03_mc_" + tag, "MC_C03", cfg(vs, depth, alpha), workers=8, timeout=3000, xmx="12g", stream_to={"CASE": cpath})
         if not r.ok:
             raise vlib.ToolError("MC_C03: a C03 property fails on the Session specification itself:\n" + r.violation)
-        cs = r.lines.get("CASE", [])
-        if not cs:
+        if not r.streamed["CASE"]:
             raise vlib.ToolError("MC_C03 emitted no behaviours")
-        cases += cs
+        n_cases += r.streamed["CASE"]
         states += r.distinct
         trans += r.generated
         wall += r.wall
-    cpath = os.path.join(vlib.BUILD, "c03_cases.ndjson")
-    opath = os.path.join(vlib.BUILD, "c03_out.ndjson")
-    vlib.write_ndjson(cpath, cases)
-    vlib.harness(["replay", "c03", cpath, opath])
-    outs = vlib.read_ndjson(opath)
-    evals = 0
-    for c, o in zip(cases, outs):
-        evals += o["evals"]
-        for m in o["mismatches"]:
-            v.mismatch("C03 %s" % json.dumps(m["script"]), {"mismatch": m})
+        vlib.harness(["replay", "c03", cpath, opath], timeout=6000)
+        with open(cpath) as fc, open(opath) as fo:
+            for lc, lo in zip(fc, fo):
+                o = json.loads(lo)
+                evals += o["evals"]
+                if o["mismatches"] or sample_steps is None or tag == "d2":
+                    c = json.loads(lc)
+                    if sample_steps is None:
+                        sample_steps = [s["st"] for s in c["steps"]]
+                    if tag == "d2" and (any(not s["ok"] for s in c["steps"]) or sum(1 for k, x in c["steps"][-1]["env"].items() if x["t"] != "unb") >= 2):
+                        nontrivial += 1
+                    for m in o["mismatches"]:
+                        v.mismatch("C03 %s" % json.dumps(m["script"]), {"mismatch": m})
+        os.remove(cpath)
+        os.remove(opath)
     n = 20000 if thorough else 1500
     tpath = os.path.join(vlib.BUILD, "c03_trace.ndjson")
     vlib.harness(["record", "c03", tpath, "--seed", str(seed), "--n", str(n)])
@@ -60,12 +68,11 @@ def check(tier, seed, t0):
         script = [e["src"] for e in events[j:i] if e["ev"] == "stmt"]
         v.mismatch("C03 trace %s" % json.dumps(script[-3:]), {"script": script, "event": events[i - 1], "index": i, "seed": seed})
     stmts = [e for e in events if e["ev"] == "stmt"]
-    nontrivial = sum(1 for c in cases if any(not s["ok"] for s in c["steps"]) or sum(1 for k, x in c["steps"][-1]["env"].items() if x["t"] != "unb") >= 2)
     ev = {
         "property_id": PROP, "tier": tier, "seed": seed, "level": "model_checking",
         "coverage": {
             "states": states, "transitions": trans, "traces_validated_against_impl": sum(1 for e in events if e["ev"] == "reset"),
-            "behaviours_replayed": len(cases), "trace_events": len(stmts),
+            "behaviours_replayed": n_cases, "trace_events": len(stmts),
             "trace_statements_failing": sum(1 for e in stmts if not e["ok"]),
             "trace_root_insertions": sum(len(e["inserts"]) for e in stmts),
             "evaluations": evals + len(stmts),
@@ -77,7 +84,7 @@ def check(tier, seed, t0):
                     "and checks Immutable / NoDoubleInsert / NoLeak / InsertsExplainChange on the observed states.",
             "exhaustive": True,
             "properties_checked_on_spec": ["Immutable", "OutputsAppendOnly", "FailedStmtFrame"],
-            "samples": [[s["st"] for s in cases[0]["steps"]], [core_src for core_src in [e["src"] for e in stmts[:6]]]],
+            "samples": [sample_steps, [core_src for core_src in [e["src"] for e in stmts[:6]]]],
             "tlc_wall_s": round(wall + tr.wall, 1),
         },
         "assumptions": ["closures are compared by kind in scope snapshots; their behaviour is observed through later call statements",
